@@ -28,7 +28,8 @@ RULE = ("streams: (A) selectVRO under subsets of {-t tags, -T tags, keep, exact,
         "products already set up: each line's answer and the command's VRO afterwards; C and D under four configured flavor chains "
         "(two in which a fallback's name sorts before the native one) and with --exact and user pre-tags; (F) `eups vro ARGS` against "
         "the VRO `setup ARGS` resolves with; (G) Eups.findProduct and findTaggedProduct on generated tag files; (H) Eups.setEupsPath on "
-        "generated path texts.  A lookup is non-trivial when the database holds a "
+        "generated path texts; (I) histories of 2-4 top-level requests (setup topK / unsetup topK / setup dep [version]) served by ONE Eups "
+        "object.  A lookup is non-trivial when the database holds a "
         "declaration of the product for the flavor asked; distinct = distinct (database, request, VRO, mode) digests")
 TRUSTED = ["the driver instantiates the model's order with C10's model of version_cmp / version_match (Model/VersionCmp.lean, "
            "verified by C10); it is compared with Eups.version_cmp / version_match on the generator's names on every run",
@@ -38,7 +39,8 @@ TRUSTED = ["the driver instantiates the model's order with C10's model of versio
            "hooks.config.Eups.userTags; SETUP_<NAME> is written as `name version -f flavor [-Z stack]` (what `setup` records)",
            "`file:` spellings and -t <file> in selectVRO (a VRO entry naming a tag file is modelled), tag groups other than global/user/pseudo, and the `setup` pseudo-tag "
            "under --ignore-versions (findSetupProduct then runs the older findPreferredProduct) are outside the model"]
-ASSUMPTIONS = ["one Eups instance per command; selectVRO is called once per instance (twice by `eups vro`, modelled)",
+ASSUMPTIONS = ["one Eups instance per command, except in stream I (several top-level requests on one instance: Model histStep); "
+               "selectVRO is called once per instance (twice by `eups vro`, modelled)",
                "at most one version per (tag, product, flavor) and stack; version and chain files are well formed",
                "no file in the working directory is named like a tag"]
 
@@ -57,7 +59,8 @@ MIRRORS = [("python/eups/Eups.py", q) for q in (
     ("python/eups/db/Database.py", "_Database.getTaggedVersion"), ("python/eups/utils.py", "userStackCacheFor"),
     ("python/eups/Eups.py", "Eups._findTaggedProductFromFile"), ("python/eups/Eups.py", "Eups.findPreferredProduct"),
     ("python/eups/Eups.py", "Eups._findPreferredProductByExpr"), ("python/eups/Product.py", "Product.createLocal"),
-    ("python/eups/utils.py", "Flavor")]
+    ("python/eups/utils.py", "Flavor"), ("python/eups/Eups.py", "Eups.getSetupProducts"),
+    ("python/eups/Eups.py", "Eups.unsetupSetupProduct")]
 
 NATIVE = "Linux"
 FLAVS = ["Linux", "generic"]              # the native flavor and its fallback: what the flavor loop visits and the cache is read for
@@ -1874,7 +1877,7 @@ def gen_h(rng):
             pieces.append(["dir", rng.randrange(len(H_DIRS)), rng.choice(H_DECOR), rng.random() < 0.15])
         else:
             pieces.append([rng.choice(["missing", "file", "empty"])])
-    return {"pieces": pieces, "dbz": rng.choice([None] * 6 + ["stack0", "sub", "sub", "deep", "stack", "other", "nomatch", "stack1", "st.ck", "st.ck"])}
+    return {"pieces": pieces, "dbz": rng.choice([None] * 10 + ["stack0", "sub", "sub", "deep", "stack", "other", "nomatch", "stack1", "st.ck", "st.ck"])}
 
 
 def h_text(c, root):
@@ -1964,6 +1967,225 @@ def eval_h(ctx, cases):
             ctx.disagree("setEupsPath", key, io_, mo)
         for clause, detail in h_oracle(c, io_):
             ctx.fail(clause, key, io_, mo, note=detail)
+
+
+# ---- stream I: several top-level requests served by ONE Eups object (API use) ---------------------------------
+
+I_DEPS = ["a", "b"]
+I_TOPS = ["top1", "top2", "top3"]
+
+
+def gen_i(rng):
+    """A history of 2-4 top-level requests on one Eups instance: `setup topK` (a table of 1-2 lines over the products a, b),
+    `unsetup topK`, `setup a|b [version]`.  In the focused histories (40 %) an earlier request chooses `a` through a version
+    entry and a later one names no version, so that it is answered by a tag standing to the RIGHT of `version` on the VRO."""
+    world = gen_world(rng, I_DEPS)
+    native = NATIVE
+    tables = {}
+    for t in I_TOPS:
+        deps = list(I_DEPS)
+        rng.shuffle(deps)
+        lines = []
+        for nm in deps[:rng.choice([1, 1, 2])]:
+            have = sorted({d[1] for st in world["stacks"] for d in st["decls"] if d[0] == nm})
+            r = rng.random()
+            version = None if (r < 0.4 or not have) else rng.choice(have) if r < 0.85 else rng.choice(EXPRS)
+            line = {"tags": [], "vro": None, "keep": False}
+            r = rng.random()
+            if r < 0.08:
+                line["keep"] = True
+            elif r < 0.16:
+                line["tags"] = [rng.choice(["beta", "stable"])]
+            lines.append({"name": nm, "version": version, "vexpr": None, "optional": rng.random() < 0.3, "line": line})
+        tables[t] = lines
+    cmds = []
+    focus = rng.random() < 0.4
+    if focus:
+        st = world["stacks"][0]
+        v1, v2 = rng.sample(VERS, 2)
+        for v in (v1, v2):
+            if ["a", v, native] not in st["decls"]:
+                st["decls"].append(["a", v, native])
+        st["decls"].sort()
+        tag = rng.choice(["current", "current", "stable"])
+        for stk in world["stacks"]:
+            stk["tags"] = [r for r in stk["tags"] if not (r[0] == tag and r[1] == "a" and r[2] == native)]
+        st["tags"] = sorted(st["tags"] + [[tag, "a", native, v2]])
+        plain = {"tags": [], "vro": None, "keep": False}
+        tables["top1"] = [{"name": "a", "version": v1, "vexpr": None, "optional": False, "line": dict(plain)}]
+        tables["top2"] = [{"name": "a", "version": None, "vexpr": None, "optional": False, "line": dict(plain)}]
+        first = rng.choice([{"op": "setup", "name": "top1", "version": None}, {"op": "setup", "name": "a", "version": v1}])
+        cmds = [first] + ([{"op": "unsetup", "name": first["name"], "version": None}] if rng.random() < 0.4 else []) + \
+               [{"op": "setup", "name": "top2", "version": None}]
+        tagsel = ["stable"] if tag == "stable" else rng.choice([[], [], ["beta"]])
+    else:
+        for _ in range(rng.choice([2, 3, 3, 4])):
+            r = rng.random()
+            if r < 0.6:
+                cmds.append({"op": "setup", "name": rng.choice(I_TOPS), "version": None})
+            elif r < 0.75:
+                cmds.append({"op": "unsetup", "name": rng.choice(I_TOPS + I_DEPS), "version": None})
+            else:
+                nm = rng.choice(I_DEPS)
+                have = sorted({d[1] for st in world["stacks"] for d in st["decls"] if d[0] == nm})
+                cmds.append({"op": "setup", "name": nm, "version": rng.choice(have) if (have and rng.random() < 0.6) else None})
+        tagsel = rng.choice([[], [], [], ["beta"], ["stable"]])
+    presets = {}
+    if not focus:
+        for nm in I_DEPS:
+            decls = [(i, d) for i, st in enumerate(world["stacks"]) for d in st["decls"] if d[0] == nm]
+            if decls and rng.random() < 0.3:
+                i, d = rng.choice(decls)
+                presets[nm] = {"version": d[1], "flavor": d[2], "stack": i}
+    return {"world": world, "tables": tables, "cmds": cmds, "presets": presets, "tags": tagsel, "focus": focus}
+
+
+def i_env(stacks):
+    env = {}
+    for nm in I_DEPS + I_TOPS:
+        v = os.environ.get("SETUP_" + nm.upper())
+        if v:
+            f = v.split()
+            root = f[f.index("-Z") + 1] if "-Z" in f else None
+            env[nm] = {"version": f[1], "flavor": f[f.index("-f") + 1], "stack": stacks.index(root) if root in stacks else -1}
+    return env
+
+
+def i_child(stacks, c):
+    _quiet()
+    try:
+        for nm, ps in c["presets"].items():
+            os.environ["SETUP_" + nm.upper()] = "%s %s -f %s -Z %s" % (nm, ps["version"], ps["flavor"], stacks[ps["stack"]])
+            os.environ[nm.upper() + "_DIR"] = os.path.join(stacks[ps["stack"]], ps["flavor"], nm, ps["version"])
+        E = common.new_eups(readCache=False, setupType=[])          # ONE object for the whole history
+        E.selectVRO(c["tags"] or None, None, None, None)
+        vro = list(E.getVRO())
+        steps = []
+        for cmd in c["cmds"]:
+            try:
+                ok, ver, why = E.setup(cmd["name"], cmd["version"], fwd=(cmd["op"] == "setup"))
+                res = bool(ok)
+            except Exception as e:  # noqa
+                res = "raised"
+            steps.append({"result": res, "env": i_env(stacks)})
+        return {"out": "ok", "vro": vro, "steps": steps, "vro_after": list(E.getVRO())}
+    except Exception as e:  # noqa
+        return {"out": "err", "err": err_enum(e)}
+
+
+def i_impl_item(c):
+    root = common.scratch("c03i")
+    try:
+        stacks = write_world(root, c["world"])
+        for t in I_TOPS:
+            pdir = os.path.join(root, "prod", t)
+            os.makedirs(os.path.join(pdir, "ups"))
+            with open(os.path.join(pdir, "ups", t + ".table"), "w") as f:
+                for ln in c["tables"][t]:
+                    f.write(d_table_line(ln, ln["name"]))
+            d = os.path.join(stacks[0], "ups_db", t)
+            os.makedirs(d)
+            with open(os.path.join(d, "1.0.version"), "w") as fd:
+                fd.write("FILE = version\nPRODUCT = %s\nVERSION = 1.0\nGroup:\n   FLAVOR = %s\n   QUALIFIERS = \"\"\n"
+                         "   PROD_DIR = %s\n   UPS_DIR = ups\n   TABLE_FILE = %s.table\nEnd:\n" % (t, NATIVE, pdir, t))
+            with open(os.path.join(d, "current.chain"), "w") as fd:
+                fd.write("FILE = version\nPRODUCT = %s\nCHAIN = current\n#Group:\n   FLAVOR = %s\n   VERSION = 1.0\n"
+                         "   QUALIFIERS = \"\"\n#End:\n" % (t, NATIVE))
+        r = common.in_child(i_child, stacks, c)
+        return r[1] if r[0] == "ok" else {"child": list(r[:4])}
+    finally:
+        common.rmtree(root)
+
+
+def i_world_with_tops(c):
+    """The database as the model sees it: the tops are declared (1.0, native, current) in the first stack."""
+    w = json.loads(json.dumps(c["world"]))
+    for t in I_TOPS:
+        w["stacks"][0]["decls"].append([t, "1.0", NATIVE])
+        w["stacks"][0]["tags"].append(["current", t, NATIVE, "1.0"])
+    return w
+
+
+def i_model_req(c, vro):
+    def lines(t):
+        return [{"name": ln["name"], "version": ln["version"], "vexpr": ln["vexpr"],
+                 "lineVro": ln["line"]["vro"].split() if ln["line"]["vro"] else None, "lineTags": ln["line"]["tags"],
+                 "lineKeep": ln["line"]["keep"], "optional": ln["optional"]} for ln in c["tables"].get(t, [])]
+    w = i_world_with_tops(c)
+    return {"m": "c03", "op": "runHistory", "db": w["stacks"], "mode": "files", "loaded": FLAVS,
+            "accepted": [False] * len(w["stacks"]), "globalTags": GLOBAL_TAGS, "userTags": USER_TAGS + ["root"], "vro": vro,
+            "keep": False, "flavors": FLAVS, "env": [[nm, ps] for nm, ps in sorted(c["presets"].items())],
+            "cmds": [{"name": cmd["name"], "version": cmd["version"], "unsetup": cmd["op"] != "setup", "lines": lines(cmd["name"])}
+                     for cmd in c["cmds"]]}
+
+
+def i_oracle(c, out, stats):
+    """Every top-level request is answered by reading the VRO afresh: a plain table line of the k-th request gets what the
+    VRO designates now, whatever an earlier, finished request on the same object chose for the product and why."""
+    if out.get("out") != "ok":
+        return
+    vro = out["vro"]
+    if out["vro_after"] != vro:
+        yield ("vro_unchanged_by_table", "VRO before the history %s, after it %s" % (vro, out["vro_after"]))
+    before = dict(c["presets"])
+    answered = {}                      # product -> index of the VRO entry that answered it in an earlier request
+    for k, (cmd, st) in enumerate(zip(c["cmds"], out["steps"])):
+        if cmd["op"] == "setup" and cmd["name"] in I_TOPS and st["result"] is True:
+            was_up = cmd["name"] in before
+            env_b = {nm: before[nm] for nm in I_DEPS if nm in before and not was_up}   # a top that is set up is unset first, with its table
+            sub_c = {"world": c["world"], "lines": c["tables"][cmd["name"]], "presets": env_b, "keep": False}
+            sub_o = {"out": "ok", "vro": vro, "vro_after": vro, "pref_after": vro, "top": True,
+                     "set": {nm: st["env"].get(nm) for nm in I_DEPS}}
+            for clause, detail in e_oracle(sub_c, sub_o):
+                yield (clause if k == 0 else "later_request_reads_vro_afresh", "request %d (setup %s): %s" % (k + 1, cmd["name"], detail))
+            for ln in c["tables"][cmd["name"]]:
+                if ln["line"]["tags"] or ln["line"]["vro"] or ln["line"]["keep"]:
+                    continue
+                want = spec_resolve(c["world"], ln["name"], vro, ln["version"], 1)
+                if want[0] == "hit":
+                    idx = vro.index(want[3])
+                    if ln["name"] in answered and answered[ln["name"]] < idx and k > 0:
+                        stats.append("later-request-answered-right-of-an-earlier-one")
+                    answered[ln["name"]] = idx
+        elif cmd["op"] == "setup" and cmd["name"] in I_DEPS and st["result"] is True and cmd["version"] and not _RELOP.search(cmd["version"]):
+            answered[cmd["name"]] = vro.index("commandLine") if "commandLine" in vro else 0
+        before = dict(st["env"])
+
+
+def eval_i(ctx, cases):
+    impl = parallel_map(i_impl_item, cases, workers=4)
+    sels = ctx.lean.ask_many([{"m": "c03", "op": "selectVRO",
+                               "cfg": {"vroDict": DEFAULT_DICT, "userVRO": False, "keep": False, "exact": False,
+                                       "globalTags": GLOBAL_TAGS + USER_TAGS + ["root"], "cmdTags": [], "prevPreferred": PREV_PREFERRED},
+                               "args": {"tags": c["tags"], "productDir": False, "versionName": False, "dbz": None,
+                                        "inexact": False, "postTags": []}} for c in cases])
+    answers = ctx.lean.ask_many([i_model_req(c, s.get("vro", [])) for c, s in zip(cases, sels)])
+    for c, io_, s, ans in zip(cases, impl, sels, answers):
+        inp = dict(c, stream="I")
+        if "child" in io_:
+            raise common.InfraError("history child failed: %r" % (io_,))
+        if s.get("out") != "ok" or "steps" not in ans:
+            mo = {"out": "err", "err": s.get("err", ans.get("bad-op", ans.get("err")))}
+        else:
+            steps = []
+            for stp in ans["steps"]:
+                r = stp["result"]
+                res = False if r["out"] != "ok" else "raised" if r["raised"] else True
+                env = {nm: p for nm, p in stp["env"]}
+                steps.append({"result": res, "env": env})
+            mo = {"out": "ok", "vro": s["vro"], "steps": steps, "vro_after": s["vro"]}
+        ctx.case(key=inp, nontrivial=any(world_has(c["world"], nm, NATIVE) for nm in I_DEPS),
+                 sample={"input": {k: c[k] for k in c if k != "world"}, "impl": io_} if ctx.evaluations % 211 == 0 else None)
+        ctx.hist("I:requests=%d" % len(c["cmds"]))
+        if any(cmd["op"] == "unsetup" for cmd in c["cmds"]):
+            ctx.hist("I:with-unsetup")
+        if mo != io_:
+            ctx.disagree("history_on_one_object", inp, io_, mo)
+        stats = []
+        for clause, detail in i_oracle(c, io_, stats):
+            ctx.fail(clause, inp, io_, mo, note=detail)
+        if stats:
+            ctx.hist("I:" + stats[0])
 
 
 # ---- the local order against the real one --------------------------------------------------------------
@@ -2112,6 +2334,9 @@ def run_inputs(ctx, inputs):
     hs = [c["case"] for c in inputs if c["stream"] == "H"]
     if hs:
         eval_h(ctx, hs)
+    is_ = [{k: v for k, v in c.items() if k not in ("stream", "_corpus", "comment")} for c in inputs if c["stream"] == "I"]
+    if is_:
+        eval_i(ctx, is_)
 
 
 def exhaustive_b(ctx):
@@ -2146,9 +2371,9 @@ def exhaustive_b(ctx):
         eval_b(ctx, items[k:k + 48])
 
 
-QUICK = {"A": 300, "B": 100, "C": 500, "D": 400, "E": 400, "F": 180, "G": 260, "H": 200}        # B counts databases (x ~42 lookups)
-THOROUGH = {"A": 6000, "B": 4000, "C": 20000, "D": 15000, "E": 15000, "F": 6000, "G": 12000, "H": 8000}
-CHUNK = {"A": 600, "B": 120, "C": 600, "D": 600, "E": 700, "F": 300, "G": 400, "H": 400}
+QUICK = {"A": 250, "B": 80, "C": 420, "D": 340, "E": 340, "F": 160, "G": 220, "H": 200, "I": 140}        # B counts databases (x ~42 lookups)
+THOROUGH = {"A": 6000, "B": 4000, "C": 20000, "D": 15000, "E": 15000, "F": 6000, "G": 12000, "H": 8000, "I": 8000}
+CHUNK = {"A": 600, "B": 120, "C": 600, "D": 600, "E": 700, "F": 300, "G": 400, "H": 400, "I": 300}
 
 
 def run_stream(ctx, k, n, pool):
@@ -2169,6 +2394,8 @@ def run_stream(ctx, k, n, pool):
         eval_g(ctx, [gen_g(ctx.rng) for _ in range(n)])
     elif k == "H":
         eval_h(ctx, [gen_h(ctx.rng) for _ in range(n)])
+    elif k == "I":
+        eval_i(ctx, [gen_i(ctx.rng) for _ in range(n)])
     ctx.hist("stream-cases:" + k, n)
 
 
@@ -2199,7 +2426,11 @@ def check_floors(ctx, done):
         raise common.InfraError("degenerate distribution: too few command lines with -t None")
     if done["G"] > 100 and (h.get("G:file", 0) < 0.3 * done["G"] or h.get("G:result=found", 0) < 0.15 * done["G"]):
         raise common.InfraError("degenerate distribution: tag-file / findProduct cases")
-    if done["H"] > 100 and h.get("H:stacks-found=0", 0) > 0.6 * done["H"]:
+    if done["I"] > 60 and (h.get("I:later-request-answered-right-of-an-earlier-one", 0) < 0.15 * done["I"]
+                           or h.get("I:with-unsetup", 0) < 0.1 * done["I"]):
+        raise common.InfraError("degenerate distribution: histories on one Eups object (%d of %d with a later request answered to the "
+                                "right of an earlier one)" % (h.get("I:later-request-answered-right-of-an-earlier-one", 0), done["I"]))
+    if done["H"] > 100 and h.get("H:stacks-found=0", 0) > 0.7 * done["H"]:
         raise common.InfraError("degenerate distribution: most path texts select no stack")
 
 
